@@ -3,7 +3,7 @@ ID = "C17"
 LEVEL = "model_checking"
 MODULES = {"c17": dict(harness=["c17_segments.cpp"], entries=()), "c10": dict(harness=["c10_parts.cpp"], entries=("h_parts", "h_weights", "h_split", "h_partlabels"))}
 BOUNDS = {
-    "quick": {"triangles_t": "0..4", "segmentation_layouts": "7 layouts (1-3 segments, 0-2 sub-segments, permuted part ids, empty segments)", "labels": "symbolic in [-1, #parts) per triangle", "delete_after": "t<=3, n<=3 vertices, k<=2 deleted, optionally a second single-vertex deletion; every surviving triangle keeps its label", "reorder": "t<=3, symbolic 32-bit order", "partition_labels": "OB/FO3/SK/SSE, 6 vertices / 4 triangles, symbolic label per triangle in [0,2), SetShapePartitions -> GetShapePartitions, then DeleteVertsForShape of one vertex"},
+    "quick": {"triangles_t": "0..4", "segmentation_layouts": "7 layouts (1-3 segments, 0-2 sub-segments, permuted part ids, empty segments)", "labels": "symbolic in [-1, #parts) per triangle", "delete_after": "layouts 1,3,4,5 (4 = non-first segment with exactly one sub-segment, seed C17-m5); t<=3, n<=3 vertices, k<=2 deleted, optionally a second single-vertex deletion; every surviving triangle keeps its label", "reorder": "t<=3, symbolic 32-bit order", "partition_labels": "OB/FO3/SK/SSE, 6 vertices / 4 triangles, symbolic label per triangle in [0,2), SetShapePartitions -> GetShapePartitions, then DeleteVertsForShape of one vertex"},
     "thorough": {"triangles_t": "0..5", "segmentation_layouts": "7", "labels": "symbolic in [-1, #parts)", "delete_after": "t<=3, n<=4, k<=3", "reorder": "t<=4"},
 }
 ASSUMPTIONS = [
@@ -31,9 +31,9 @@ def jobs(tier, seed):
         for t in range(1, 4):
             for n in range(1, (3 if tier == "quick" else 4) + 1):
                 for k in range(1, min(n, 2 if tier == "quick" else 3) + 1):
-                    if tier == "quick" and layout not in (1, 3, 5):
+                    if tier == "quick" and layout not in (1, 3, 4, 5):
                         continue
-                    if t == 3 and tier == "quick" and (n > 2 or layout == 5):
+                    if t == 3 and tier == "quick" and (n > 2 or layout in (4, 5)):
                         continue
                     J.append(dict(entry="h_seg_delete", args=[t, layout, n, k, 0, 0], budget=bud))
                     if k == 1 and n >= 2 and t >= 2:
